@@ -66,6 +66,7 @@ mod kr {
         let m = split_map();
         assert!(m.len() == 8);
         assert!(m.verif_parts().1.is_some(), "[KR] prefix did not produce a mid-resize map");
+        kani::cover!(true, "reach: end of harness");
         core::mem::forget(m);
     }
 
@@ -80,6 +81,7 @@ mod kr {
         let r = m.remove(&k);
         assert!(r == if k < 8 { Some(k) } else { None }, "[KR] remove returned a wrong value");
         consistent(&m, q, if q < 8 && q != k { Some(q) } else { None });
+        kani::cover!(true, "reach: end of harness");
         core::mem::forget(m);
     }
 
@@ -94,6 +96,7 @@ mod kr {
             let _ = e.replace_entry_with(|_, _| ret);
         }
         consistent(&m, k, ret);
+        kani::cover!(true, "reach: end of harness");
         core::mem::forget(m);
     }
 }
